@@ -418,6 +418,17 @@ func (c *FnCtx) callByContract(st *State, fs *FuncSpec, sig *types.Signature, re
 	for i := 0; i < nres; i++ {
 		c.heapKeysOf(sig.Results().At(i).Type(), seen, keys)
 	}
+	var except []Val
+	if fs.Assigns != "" && fs.Assigns != "nothing" {
+		for _, item := range splitTop(fs.Assigns, ',') {
+			ex, err := parseSpecExpr(item)
+			if err != nil {
+				c.unsupported = append(c.unsupported, "bad assigns clause of "+key)
+				continue
+			}
+			except = append(except, pre.eval(ex))
+		}
+	}
 	if fs.Assigns != "nothing" {
 		for i := 0; i < sig.Params().Len(); i++ {
 			c.heapKeysOf(sig.Params().At(i).Type(), seen, keys)
@@ -434,11 +445,22 @@ func (c *FnCtx) callByContract(st *State, fs *FuncSpec, sig *types.Signature, re
 	for _, k := range ks {
 		c.callHeapKeys[k] = true
 		oldSym, newSym := c.havocHeap(st, k)
-		if fs.Assigns == "nothing" {
+		if fs.Assigns != "" {
+			exc := "true"
 			if strings.HasPrefix(k, "P_") {
-				c.assume(st, fmt.Sprintf("(forall ((r Int)) (! (=> (< r %s) (= (%s r) (%s r))) :pattern ((%s r))))", old.alloc, newSym, oldSym, newSym))
+				for _, e := range except {
+					if e.K == KPtr && e.Elem != nil && strings.HasPrefix(k, "P_"+c.elemKey(e.Elem)) {
+						exc = sAnd(exc, sNot(sx("=", "r", e.S)))
+					}
+				}
+				c.assume(st, fmt.Sprintf("(forall ((r Int)) (! (=> (and (< r %s) %s) (= (%s r) (%s r))) :pattern ((%s r))))", old.alloc, exc, newSym, oldSym, newSym))
 			} else {
-				c.assume(st, fmt.Sprintf("(forall ((r Int) (i Int)) (! (=> (< r %s) (= (%s r i) (%s r i))) :pattern ((%s r i))))", old.alloc, newSym, oldSym, newSym))
+				for _, e := range except {
+					if e.K == KSlice && c.elemKeyMatches(e, k) {
+						exc = sAnd(exc, sNot(sAnd(sx("=", "r", e.ref()), sx("<=", e.off(), "i"), sx("<", "i", sx("+", e.off(), e.ln())))))
+					}
+				}
+				c.assume(st, fmt.Sprintf("(forall ((r Int) (i Int)) (! (=> (and (< r %s) %s) (= (%s r i) (%s r i))) :pattern ((%s r i))))", old.alloc, exc, newSym, oldSym, newSym))
 			}
 		}
 	}
@@ -468,6 +490,9 @@ func (c *FnCtx) callByContract(st *State, fs *FuncSpec, sig *types.Signature, re
 		}
 	}
 	for _, e := range fs.Ensures {
+		if e.Local {
+			continue
+		}
 		c.assume(st, post.boolOf(e.Expr))
 	}
 	switch nres {
@@ -515,7 +540,13 @@ func (c *FnCtx) frameFormula(old, cur *State, bound string, except []Val) string
 			continue
 		}
 		if one {
-			parts = append(parts, fmt.Sprintf("(forall ((r Int)) (=> (and (< 0 r) (< r %s)) (= (%s r) (%s r))))", bound, b, a))
+			exc := "true"
+			for _, e := range except {
+				if e.K == KPtr && e.Elem != nil && strings.HasPrefix(k, "P_"+c.elemKey(e.Elem)) {
+					exc = sAnd(exc, sNot(sx("=", "r", e.S)))
+				}
+			}
+			parts = append(parts, fmt.Sprintf("(forall ((r Int)) (=> (and (< 0 r) (< r %s) %s) (= (%s r) (%s r))))", bound, exc, b, a))
 			continue
 		}
 		exc := "true"
